@@ -98,6 +98,37 @@ def E():
 
     jtu.register_pytree_node(FNode, fl, lambda _, ch: FNode(*ch))
 
+    class RNode:
+        """a registered node whose flatten function itself makes PyTree checks (re-entrancy: a
+        check made WHILE another PyTree check is flattening); the verdicts are recorded"""
+
+        log = []
+
+        def __init__(self, *ch):
+            self.ch = ch
+
+    def rfl(n):
+        RNode.log.append(adapter.check(("s", 1), PyTree[int]))
+        RNode.log.append(adapter.check((1, (2, 3)), PyTree[int, "T U"]))
+        RNode.log.append(adapter.check((1, 2), PyTree[int]))
+        return (n.ch, None)
+
+    jtu.register_pytree_node(RNode, rfl, lambda _, ch: RNode(*ch))
+
+    @typing.runtime_checkable
+    class TaggedArray(typing.Protocol):
+        shape: tuple
+        dtype: str
+        tag: int
+
+    class PDuck:
+        def __init__(self, shape, tagged):
+            self.shape, self.dtype = tuple(shape), "float32"
+            if tagged:
+                self.tag = 1
+
+    e.update(RNode=RNode, PDuck=PDuck, FP=Float[TaggedArray, "a"])
+
     class MetaLeaf(type):
         def __instancecheck__(cls, obj):
             FAULT.hit("instancecheck")
@@ -438,6 +469,11 @@ def battery():
     out.append(("fresh Optional member", (c(Duck((2,), "int32"), fresh), c("x", fresh), c(Duck((2,)), fresh))))
     u0, u1 = typing.get_args(Float[typing.Union[Duck, e["CDuck"]], "opt"])  # = Union[Float[Duck, ..], Float[CDuck, ..]]
     out.append(("fresh union array type", (c(Duck((2,), "int32"), u0), c("x", u0), c("x", u1), c(Duck((2,)), u0), c(e["CDuck"]((2,)), u1))))
+    PD, FP, RNode = e["PDuck"], e["FP"], e["RNode"]
+    out.append(("instance-dependent array type", (c(PD((2,), False), FP), c(PD((2,), True), FP), c(PD((2,), False), FP))))
+    del RNode.log[:]
+    outer = c([RNode(1, 2), 7], jaxtyping.PyTree[int])
+    out.append(("PyTree checks made while another one is flattening", (outer, tuple(RNode.log[:3]))))
     out.append(("top-level print_bindings", adapter.bindings_text()))
     with jaxtyped("context"):
         out.append(("ctx a=2", c(Duck((2,)), F["a"])))
@@ -485,6 +521,8 @@ def battery():
 TRUTH = {
     "bare wrong dtype": False, "bare wrong dtype Vec": False, "bare non-array Vec": False, "bare non-array CA": False, "bare wrong rank": False,
     "bare wrong class": False, "bare ? outside PyTree": "AnnotationError", "bare Int": False, "top-level print_bindings": "\n",
+    "instance-dependent array type": (False, True, False),
+    "PyTree checks made while another one is flattening": (True, (False, "AnnotationError", True)),
     "fresh Optional member": (False, False, True), "fresh union array type": (False, False, False, True, True),
     "ctx a=2": True, "ctx a=3 rejected": False, "ctx Vec": True, "ctx Vec rejected": False,
     "pt ok": True, "pt bad": False, "pt wrong dtype leaf": False, "ptq ok": True, "ptq bad": False, "ptq wrong structure": False,
